@@ -235,7 +235,12 @@ def r1_plain_is_stripped_extended(ctx, sep):
         ec = ctx.prog.cls(f'{TK}.{ext}')
         ef = ctx.prog.func(f'{TK}.{ext}.tokenize')
         tok_p = pf.params[1]
-        rets = symex.returns(pf)
+        if pf.cls is not None and pf.cls.name != plain and pf.cls.qualname not in ctx.prog.normalizer.known:
+            # the plain tokenizers inherit one template method from a class the pinned tree does not have: what each of them does is
+            # decided by the hooks and tables its sub-class overrides - the method is specialised per class (F.class_returns)
+            pf, rets = F.class_returns(ctx, ctx.prog.cls(f'{TK}.{plain}'), 'tokenize')
+        else:
+            rets = symex.returns(pf)
         ctx.expect_count('R1', f'return paths of {plain}.tokenize', len(rets), 1)
         for cond, val, sp in rets:
             at = f'{pf.module.relpath}:{sp.path.end_node.lineno}'
